@@ -22,12 +22,32 @@ type Const struct {
 	Pkg   string // package name
 	Func  string // enclosing function for local constants ("" at package level)
 	Name  string
-	Kind  string   // "Z", "string", "bool"
+	Kind  string   // "Z", "string", "bool", "bytes" (a []byte variable with a constant initialiser)
 	Int   *big.Int // Kind == "Z"
 	Str   string   // Kind == "string"
 	Bool  bool
+	Bytes []byte
 	Where string // file:line relative to the repository
 }
+
+// Expr is an integer expression of the source kept as a tree: thresholds and
+// shares whose SHAPE matters (len(x)*2/3+1, l-(l-1)/2, balance*7/8/len(ir)).
+type Expr struct {
+	Op   string // "var", "len", "const", "+", "-", "*", "/"
+	Name string // var: identifier; len: printed argument
+	Val  *big.Int
+	L, R *Expr
+}
+
+// NamedExpr is an extracted expression with its place.
+type NamedExpr struct {
+	Pkg, Func, Name string
+	E               *Expr
+	Src             string
+	Where           string
+}
+
+func (e NamedExpr) CoqName() string { return "p_" + e.Pkg + "_" + e.Func + "_" + e.Name + "_expr" }
 
 // CoqName is p_<pkg>_<name> (p_<pkg>_<func>_<name> for local constants).
 func (c Const) CoqName() string {
@@ -55,6 +75,7 @@ type Gate struct {
 // Params is everything read from the Go sources.
 type Params struct {
 	Consts        []Const
+	Exprs         []NamedExpr
 	VersionFile   string
 	FsContracts   []string
 	MainContracts []string
@@ -109,66 +130,41 @@ func ExtractParams(repo string) (*Params, error) {
 		return fmt.Sprintf("%s:%d", r, p.Line)
 	}
 
-	// constants
-	for _, p := range pkgs {
-		for _, f := range p.Syntax {
-			if strings.HasSuffix(fset.Position(f.Pos()).Filename, "_test.go") {
-				continue
-			}
-			var walk func(n ast.Node, fn string)
-			walk = func(n ast.Node, fn string) {
-				ast.Inspect(n, func(n ast.Node) bool {
-					switch x := n.(type) {
-					case *ast.FuncDecl:
-						if x.Body != nil {
-							name := x.Name.Name
-							if x.Recv != nil && len(x.Recv.List) == 1 {
-								name = typeName(x.Recv.List[0].Type) + "_" + name
-							}
-							walk(x.Body, name)
-						}
-						return false
-					case *ast.ValueSpec:
-						for _, id := range x.Names {
-							if id.Name == "_" {
-								continue
-							}
-							obj, ok := p.TypesInfo.Defs[id].(*types.Const)
-							if !ok {
-								continue
-							}
-							c := Const{Pkg: p.Name, Func: fn, Name: id.Name, Where: rel(id.Pos())}
-							v := obj.Val()
-							switch v.Kind() {
-							case constant.Int:
-								c.Kind = "Z"
-								c.Int, _ = new(big.Int).SetString(v.ExactString(), 10)
-							case constant.String:
-								c.Kind = "string"
-								c.Str = constant.StringVal(v)
-							case constant.Bool:
-								c.Kind = "bool"
-								c.Bool = constant.BoolVal(v)
-							default:
-								continue
-							}
-							res.Consts = append(res.Consts, c)
-						}
-					}
-					return true
-				})
-			}
-			walk(f, "")
+	// constants, byte-string variables and arithmetic expressions
+	collect(res, pkgs, fset, rel)
+	// the deploy package: type-checked against the export data of its
+	// dependencies (it imports the whole RPC client; no NeedDeps)
+	dcfg := &packages.Config{
+		Mode: packages.NeedName | packages.NeedFiles | packages.NeedSyntax | packages.NeedTypes |
+			packages.NeedTypesInfo | packages.NeedImports,
+		Dir:  repo,
+		Fset: fset,
+	}
+	dpkgs, err := packages.Load(dcfg, "./deploy")
+	if err != nil {
+		return nil, err
+	}
+	for _, p := range dpkgs {
+		if len(p.Errors) > 0 {
+			return nil, fmt.Errorf("package %s: %v", p.PkgPath, p.Errors[0])
 		}
 	}
+	collect(res, dpkgs, fset, rel)
 	sort.SliceStable(res.Consts, func(i, j int) bool { return res.Consts[i].CoqName() < res.Consts[j].CoqName() })
-	// local constants of the same name in one function (different blocks): keep the first, number the rest
+	// local names repeated in one function (different blocks): keep the first, number the rest
 	seen := map[string]int{}
 	for i := range res.Consts {
 		n := res.Consts[i].CoqName()
 		seen[n]++
 		if seen[n] > 1 {
 			res.Consts[i].Name = fmt.Sprintf("%s_%d", res.Consts[i].Name, seen[n])
+		}
+	}
+	for i := range res.Exprs {
+		n := res.Exprs[i].CoqName()
+		seen[n]++
+		if seen[n] > 1 {
+			res.Exprs[i].Name = fmt.Sprintf("%s_%d", res.Exprs[i].Name, seen[n])
 		}
 	}
 
@@ -500,4 +496,186 @@ func deployStages(repo string) ([]string, error) {
 		return true
 	})
 	return out, nil
+}
+
+// exprTargets: left-hand-side names whose defining expression is extracted.
+var exprTargets = map[string]bool{"threshold": true, "proxyGas": true, "gasPerNode": true, "toTransfer": true,
+	"perNodeGAS": true, "perNodeGASNotary": true}
+
+// collect walks the syntax of pkgs and appends constants, []byte variables
+// with constant initialisers and the targeted expressions to res.
+func collect(res *Params, pkgs []*packages.Package, fset *token.FileSet, rel func(token.Pos) string) {
+	for _, p := range pkgs {
+		info := p.TypesInfo
+		constOf := func(e ast.Expr) constant.Value {
+			if tv, ok := info.Types[e]; ok && tv.Value != nil {
+				return tv.Value
+			}
+			return nil
+		}
+		isByteSlice := func(t types.Type) bool {
+			if t == nil {
+				return false
+			}
+			sl, ok := t.Underlying().(*types.Slice)
+			if !ok {
+				return false
+			}
+			b, ok := sl.Elem().Underlying().(*types.Basic)
+			return ok && b.Kind() == types.Uint8
+		}
+		// bytesOf: []byte("const"), []byte{c1, c2, ...}, or a constant string for string variables
+		bytesOf := func(e ast.Expr) ([]byte, bool) {
+			switch x := e.(type) {
+			case *ast.CallExpr:
+				if len(x.Args) == 1 && isByteSlice(info.TypeOf(x.Fun)) {
+					if tv, ok := info.Types[x.Fun]; ok && tv.IsType() {
+						if v := constOf(x.Args[0]); v != nil && v.Kind() == constant.String {
+							return []byte(constant.StringVal(v)), true
+						}
+					}
+				}
+			case *ast.CompositeLit:
+				if !isByteSlice(info.TypeOf(x)) {
+					return nil, false
+				}
+				out := []byte{}
+				for _, el := range x.Elts {
+					v := constOf(el)
+					if v == nil || v.Kind() != constant.Int {
+						return nil, false
+					}
+					n, ok := constant.Int64Val(v)
+					if !ok || n < 0 || n > 255 {
+						return nil, false
+					}
+					out = append(out, byte(n))
+				}
+				return out, true
+			}
+			return nil, false
+		}
+		var toExpr func(e ast.Expr) *Expr
+		toExpr = func(e ast.Expr) *Expr {
+			if v := constOf(e); v != nil {
+				if v.Kind() != constant.Int {
+					return nil
+				}
+				z, _ := new(big.Int).SetString(v.ExactString(), 10)
+				return &Expr{Op: "const", Val: z}
+			}
+			switch x := e.(type) {
+			case *ast.ParenExpr:
+				return toExpr(x.X)
+			case *ast.Ident:
+				return &Expr{Op: "var", Name: x.Name}
+			case *ast.CallExpr:
+				if id, ok := x.Fun.(*ast.Ident); ok && id.Name == "len" && len(x.Args) == 1 {
+					return &Expr{Op: "len", Name: types.ExprString(x.Args[0])}
+				}
+				// conversions int(x), int64(x)
+				if tv, ok := info.Types[x.Fun]; ok && tv.IsType() && len(x.Args) == 1 {
+					return toExpr(x.Args[0])
+				}
+			case *ast.BinaryExpr:
+				op := map[token.Token]string{token.ADD: "+", token.SUB: "-", token.MUL: "*", token.QUO: "/"}[x.Op]
+				if op == "" {
+					return nil
+				}
+				l, r := toExpr(x.X), toExpr(x.Y)
+				if l == nil || r == nil {
+					return nil
+				}
+				return &Expr{Op: op, L: l, R: r}
+			}
+			return nil
+		}
+		for _, f := range p.Syntax {
+			if strings.HasSuffix(fset.Position(f.Pos()).Filename, "_test.go") {
+				continue
+			}
+			addBytes := func(fn string, id *ast.Ident, val ast.Expr) {
+				if id.Name == "_" {
+					return
+				}
+				if _, ok := info.Defs[id].(*types.Var); !ok {
+					return
+				}
+				if b, ok := bytesOf(val); ok {
+					res.Consts = append(res.Consts, Const{Pkg: p.Name, Func: fn, Name: id.Name, Kind: "bytes", Bytes: b, Where: rel(id.Pos())})
+				}
+			}
+			addExpr := func(fn, name string, e ast.Expr) {
+				if x := toExpr(e); x != nil && x.Op != "const" && x.Op != "var" {
+					res.Exprs = append(res.Exprs, NamedExpr{Pkg: p.Name, Func: fn, Name: name, E: x, Src: types.ExprString(e), Where: rel(e.Pos())})
+				}
+			}
+			var walk func(n ast.Node, fn string)
+			walk = func(n ast.Node, fn string) {
+				ast.Inspect(n, func(n ast.Node) bool {
+					switch x := n.(type) {
+					case *ast.FuncDecl:
+						if x.Body != nil {
+							name := x.Name.Name
+							if x.Recv != nil && len(x.Recv.List) == 1 {
+								name = typeName(x.Recv.List[0].Type) + "_" + name
+							}
+							walk(x.Body, name)
+						}
+						return false
+					case *ast.AssignStmt:
+						if len(x.Lhs) == len(x.Rhs) {
+							for i, l := range x.Lhs {
+								id, ok := l.(*ast.Ident)
+								if !ok {
+									continue
+								}
+								if x.Tok == token.DEFINE {
+									addBytes(fn, id, x.Rhs[i])
+								}
+								if exprTargets[id.Name] {
+									addExpr(fn, id.Name, x.Rhs[i])
+								}
+							}
+						}
+					case *ast.CallExpr:
+						if sel, ok := x.Fun.(*ast.SelectorExpr); ok && sel.Sel.Name == "CreateMultisigAccount" && len(x.Args) >= 1 {
+							addExpr(fn, "multisig_m", x.Args[0])
+						}
+					case *ast.ValueSpec:
+						for i, id := range x.Names {
+							if id.Name == "_" {
+								continue
+							}
+							if i < len(x.Values) && len(x.Values) == len(x.Names) {
+								addBytes(fn, id, x.Values[i])
+							}
+							obj, ok := info.Defs[id].(*types.Const)
+							if !ok {
+								continue
+							}
+							c := Const{Pkg: p.Name, Func: fn, Name: id.Name, Where: rel(id.Pos())}
+							v := obj.Val()
+							switch v.Kind() {
+							case constant.Int:
+								c.Kind = "Z"
+								c.Int, _ = new(big.Int).SetString(v.ExactString(), 10)
+							case constant.String:
+								c.Kind = "string"
+								c.Str = constant.StringVal(v)
+							case constant.Bool:
+								c.Kind = "bool"
+								c.Bool = constant.BoolVal(v)
+							default:
+								continue
+							}
+							res.Consts = append(res.Consts, c)
+						}
+					}
+					return true
+				})
+			}
+			walk(f, "")
+		}
+	}
 }
